@@ -137,7 +137,10 @@ Record entry := {
 
 Inductive op :=
 | ONew (c : N) (ts : tlist) (pps : list pp) (I : list tkey)   (* DSDLCodeGenerator(namespace built from I, options c, templates ts) *)
-| ORun (gid : nat) (order : list tkey)            (* generate_all() of generator gid, visiting the types in this order *)
+| ORun (gid : nat) (args : N) (dry : bool) (order : list tkey)
+    (* generate_all(is_dryrun=dry, omit_serialization_support=.., embed_auditing_info=..) of generator gid, visiting the types
+       in this order; args numbers the combination of the per-call flags (update_nunavut_globals: what templates see as
+       nunavut.support.omit / nunavut.embed_auditing_info) *)
 | OClear.                                        (* cache_clear() of every memo table *)
 
 Section Run.
@@ -199,6 +202,20 @@ Section Run.
         end
     end.
 
+  (* what rendering sees as "the options": the generator's configuration together with the per-call arguments *)
+  Definition ecfg (cf args : N) : N := cf * 16 + args.
+
+  (* generate_all(is_dryrun=True): templates are looked up (the loader memo fills), nothing is rendered or written *)
+  Fixpoint dry_types (ts : tlist) (I : list tkey) (memo : tmemo) (order : list tkey) : tmemo :=
+    match order with
+    | [] => memo
+    | k :: order' =>
+        match resolve_in U I k with
+        | None => dry_types ts I memo order'
+        | Some o => dry_types ts I (fst (select ts memo (obj_cls o))) order'
+        end
+    end.
+
   Fixpoint set_nth {A : Type} (n : nat) (x : A) (l : list A) : list A :=
     match l, n with
     | [], _ => []
@@ -212,12 +229,18 @@ Section Run.
         ({| p_uniq := p_uniq s; p_cache := p_cache s;
             p_gens := p_gens s ++ [{| go_cfg := cf; go_tset := ts; go_memo := []; go_pps := pps; go_inputs := ins |}] |}, [])
     | OClear => ({| p_uniq := p_uniq s; p_cache := []; p_gens := p_gens s |}, [])
-    | ORun gid order =>
+    | ORun gid args dry order =>
         match nth_error (p_gens s) gid with
         | None => (s, [])
         | Some g =>
+            if dry then
+              ({| p_uniq := p_uniq s; p_cache := p_cache s;
+                  p_gens := set_nth gid {| go_cfg := go_cfg g; go_tset := go_tset g;
+                                           go_memo := dry_types (go_tset g) (go_inputs g) (go_memo g) order;
+                                           go_pps := go_pps g; go_inputs := go_inputs g |} (p_gens s) |}, [])
+            else
             let '(m1, u1, c1, ps1, es) :=
-              run_types (go_cfg g) (go_tset g) (go_inputs g) (go_memo g) (p_uniq s) (p_cache s) (go_pps g) order in
+              run_types (ecfg (go_cfg g) args) (go_tset g) (go_inputs g) (go_memo g) (p_uniq s) (p_cache s) (go_pps g) order in
             ({| p_uniq := u1; p_cache := c1;
                 p_gens := set_nth gid {| go_cfg := go_cfg g; go_tset := go_tset g; go_memo := m1; go_pps := ps1;
                                          go_inputs := go_inputs g |} (p_gens s) |},
@@ -313,10 +336,10 @@ Section Solid.
     | [] => true
     | ONew cf ts pps ins :: h' => pps_clean pps && hist_solid (gens ++ [(cf, ts, ins)]) h'
     | OClear :: h' => hist_solid gens h'
-    | ORun gid order :: h' =>
+    | ORun gid args dry order :: h' =>
         match nth_error gens gid with
         | None => true
-        | Some (cf, ts, ins) => forallb (file_solid cf ts ins) order
+        | Some (cf, ts, ins) => dry || forallb (file_solid (cf * 16 + args) ts ins) order
         end && hist_solid gens h'
     end.
 End Solid.
